@@ -187,7 +187,12 @@ func cmdCheck(args []string) int {
 		inconcl += len(er.Inconcl)
 	}
 	wall := time.Since(t0).Seconds()
-	writeEvidence(spec, *tier, seed, prog, results, wall, errorsAll, nviol, map[string]interface{}{"load_s": loadSecs, "known_findings_hit": len(knownHit)})
+	extra := map[string]interface{}{"load_s": loadSecs, "known_findings_hit": len(knownHit)}
+	if prog.skippedOpt != "" {
+		extra["skipped"] = prog.skippedOpt
+		fmt.Printf("NOTE property=%s %s\n", id, prog.skippedOpt)
+	}
+	writeEvidence(spec, *tier, seed, prog, results, wall, errorsAll, nviol, extra)
 	if len(errorsAll) > 0 {
 		seenE := map[string]bool{}
 		for _, e := range errorsAll {
